@@ -174,7 +174,21 @@ pub fn run(ctx: &Ctx) -> i32 {
         }
         for _ in 0..40 {
             let c = circgen::well_formed_ssa(&mut rng, 30);
-            valid_reg.push(rc::Circuit::from(&c));
+            // (validation accepts every circuit produced by the SSA-to-register conversion; the
+            // conversion of a valid SSA circuit does not panic either)
+            match crate::util::catch(|| rc::Circuit::from(&c)) {
+                Ok(r) => {
+                    if let Err(e) = r.validate() {
+                        ctx.violation(&format!("converter output for a well-formed SSA circuit fails validate(): {e:?}"), json!({"kind": "ssa", "circuit": format!("{c:?}").chars().take(2000).collect::<String>()}));
+                        continue;
+                    }
+                    valid_reg.push(r);
+                }
+                Err(p) => {
+                    ctx.violation(&format!("SSA-to-register conversion panicked on a valid SSA circuit: {p}"), json!({"kind": "ssa", "circuit": format!("{c:?}").chars().take(2000).collect::<String>()}));
+                    continue;
+                }
+            }
             valid_ssa.push(c);
         }
         while !ctx.out_of_time() {
